@@ -1266,7 +1266,9 @@ func (r *replicateChannelHandler) innerHandleReplicateMsg(forward bool, msg *api
 	p.PChannelName = msg.PChannelName
 	p.TaskID = msg.TaskID
 	verifYield("computed", r.targetPChannel, msg, p)
-	GetTSManager().SendTargetMsg(r.getTSManagerChannelKey(r.targetPChannel), p)
+	// handlePack returns a pack with the target channel lock hold, release it after the pack is in the target channel
+	GetTSManager().UnsafeSendTargetMsg(r.getTSManagerChannelKey(r.targetPChannel), p)
+	GetTSManager().UnLockTargetChannel(r.getTSManagerChannelKey(r.targetPChannel))
 	verifYield("enqueued", r.targetPChannel, msg, p)
 }
 
@@ -1763,18 +1765,21 @@ func (r *replicateChannelHandler) handlePack(forward bool, pack *msgstream.MsgPa
 		GetTSManager().CollectTS(tsManagerChannelKey, newPack.EndTs)
 	}
 
+	// the target channel lock is hold until the pack has been put into the target channel by the caller
+	// (see innerHandleReplicateMsg), otherwise a pack with a later time tick can overtake this pack.
 	GetTSManager().LockTargetChannel(tsManagerChannelKey)
-	defer GetTSManager().UnLockTargetChannel(tsManagerChannelKey)
 
 	resetLastTs := needTsMsg || len(newPack.Msgs) != 0
 	needTsMsg = needTsMsg || len(newPack.Msgs) != 0 || GetTSManager().UnsafeShouldSendTSMsg(tsManagerChannelKey)
 
 	if !needTsMsg {
+		GetTSManager().UnLockTargetChannel(tsManagerChannelKey)
 		return api.EmptyMsgPack
 	}
 
 	generateTS, ok := GetTSManager().UnsafeGetMaxTS(tsManagerChannelKey)
 	if !ok {
+		GetTSManager().UnLockTargetChannel(tsManagerChannelKey)
 		log.Warn("not found the max ts", zap.String("channel", r.targetPChannel))
 		r.sendErrEvent(fmt.Errorf("not found the max ts"))
 		return nil
